@@ -8,7 +8,9 @@ package main
 // signed by the rightful signers and by the attacker.
 
 import (
+	"bytes"
 	"fmt"
+	"strings"
 	"math/big"
 	"math/rand"
 
@@ -96,6 +98,10 @@ func c02Adversarial(name string, rnd *rand.Rand, variant int, hist map[string]in
 	blk("")
 	blk("") // the unstaked amounts are withdrawable, the undelegated amount is back, rewards have accrued
 
+	// ---- a SECP256K1-keyed funded account (its address is hash160 of the compressed key) that has made a transaction: its public key is public ----
+	sv := seedKeyAlg(77, keys.SECP256K1)
+	blk("setup", txSend(u0, sv.Addr, oltAmt("5000000000000000000000"), m()))
+	blk("setup", txSend(sv, u1.Addr, oltAmt("1000000000000000000"), m()))
 	// ---- bid conversations: convX gets an active COUNTER offer (further offers of the bidder answer it), convY keeps an active bid ----
 	convX := bidConvID(u0.Addr, "advx", u3.Addr, r.rep.H+1)
 	convY := bidConvID(u0.Addr, "advy", u2.Addr, r.rep.H+1)
@@ -332,6 +338,53 @@ func c02Adversarial(name string, rnd *rand.Rand, variant int, hist map[string]in
 			descr = append(descr, fmt.Sprintf("sigslot %s genuine signatures first, foreign public key + junk in the last slot", k.Name))
 			hist["sigslot:foreign-key-junk-last"]++
 		}
+		// FORGED ENVELOPES carrying a VICTIM's PUBLIC key: the payload names the victim wherever it named the first signer; slot 0 holds
+		// the victim's public key - unchanged or RELABELLED under every other key algorithm - with junk / empty / the genuine
+		// signature bytes of ANOTHER transaction of the victim; further slots are signed genuinely by the remaining signers.
+		// Victims: an ed25519 account and the secp256k1 account.  Nobody's money may move: the victim signed nothing.
+		if c02SpendingKind[k.Name] {
+			for _, vic := range []Key{w.Users[(ki+3)%5], sv} {
+				raw := basetx.RawTx
+				raw.Data = []byte(strings.ReplaceAll(string(raw.Data), `"`+k.Signers[0].Addr.String()+`"`, `"`+vic.Addr.String()+`"`))
+				other := decodeSigned(signRaw(action.RawTx{Type: action.SEND, Data: []byte("{}"), Fee: raw.Fee, Memo: "another transaction"}, vic)).Signatures[0].Signed
+				cur := vic.Pub.KeyType.String()
+				seenAlg := map[string]bool{}
+				for _, alg := range []string{cur, "ed25519", "secp256k1", "btcecsecp", "ethsecp"} {
+					if seenAlg[alg] {
+						continue
+					}
+					seenAlg[alg] = true
+					for _, sigv := range []string{"junk", "empty", "other-tx"} {
+						{
+							raw.Memo = m()
+							stx := action.SignedTx{RawTx: raw}
+							sg := action.Signature{Signer: vic.Pub}
+							switch sigv {
+							case "junk":
+								sg.Signed = bytes.Repeat([]byte{0x5a}, 64)
+							case "empty":
+								sg.Signed = []byte{}
+							default:
+								sg.Signed = other
+							}
+							stx.Signatures = []action.Signature{sg}
+							if len(k.Signers) > 1 {
+								stx.Signatures = append(stx.Signatures, decodeSigned(signRaw(raw, k.Signers[1:]...)).Signatures...)
+							}
+							bz := encodeSigned(&stx)
+							label := "unchanged"
+							if alg != cur {
+								bz = []byte(strings.Replace(string(bz), `"keyType":"`+cur+`"`, `"keyType":"`+alg+`"`, 1))
+								label = "relabelled " + alg
+							}
+							txs = append(txs, bz)
+							descr = append(descr, fmt.Sprintf("forged %s names the %s victim, slot 0 = the victim's public key (%s), signature %s", k.Name, cur, label, sigv))
+							hist["forged-victim-key:"+cur+"/"+label+"/"+sigv]++
+						}
+					}
+				}
+			}
+		}
 		// the unchanged payload signed by the attacker alone
 		raw := basetx.RawTx
 		raw.Memo = m()
@@ -356,6 +409,10 @@ func c02Adversarial(name string, rnd *rand.Rand, variant int, hist map[string]in
 	}
 	return r.finish(), r.prefix
 }
+
+// kinds that spend from their first signer
+var c02SpendingKind = map[string]bool{"SEND": true, "SENDPOOL": true, "STAKE": true, "ADD_NETWORK_DELEGATE": true, "DOMAIN_CREATE": true, "DOMAIN_PURCHASE": true,
+	"DOMAIN_SEND": true, "DOMAIN_RENEW": true, "PROPOSAL_CREATE": true, "PROPOSAL_FUND": true, "BID_CREATE": true, "NETWORK_UNDELEGATE": true, "WITHDRAW_REWARD": true}
 
 func sortedMapKeys(m map[string][]byte) []string {
 	ks := make([]string, 0, len(m))
